@@ -59,6 +59,10 @@ type Req struct {
 	// the simulated clock (what time.Now inside pkg/inflector reads): ClockJumpMS pass before the request
 	// is served (the process has been alive that much longer), every scheduling step / sequential call /
 	// volume call takes ClockStepUS microseconds
+	// volume mode extras: RaiseProcs multiplies GOMAXPROCS before the first call (a program that sets it in
+	// main, go test -cpu); GiantKiB > 0 first inflects inputs of that size ending in an irregular word
+	RaiseProcs int `json:"raise_procs,omitempty"`
+	GiantKiB   int `json:"giant_kib,omitempty"`
 	ClockJumpMS int64 `json:"clock_jump_ms,omitempty"`
 	ClockStepUS int64 `json:"clock_step_us,omitempty"`
 }
